@@ -177,6 +177,11 @@ class FakeFFmpeg(object):
         exe = os.path.basename(cmd[0])
         if "ffprobe" in exe:
             spec = self.videos.get(os.path.realpath(cmd[-1]))
+            if getattr(self, "fail_next_probe", False):
+                self.fail_next_probe = False
+                self.events.append(("spawn_fault", "ffprobe"))
+                self.fired["ffprobe_spawn_failure"] += 1
+                raise OSError(errno.EMFILE, "injected spawn failure (ffprobe)")
             self.events.append(("spawn", "ffprobe", None if spec is None else spec.vid))
             if spec is None:
                 return FakeProc(self, "probe", None, b"")
